@@ -1795,3 +1795,66 @@ Proof.
       * rewrite (mapM_length _ _ _ E1). rewrite Forall_forall in HRr. apply HRr, Hin. left. reflexivity.
       * apply IH; [intros r' Hr'; apply Hin; right; exact Hr'|reflexivity].
 Qed.
+
+(* ===== Part 9 (audit round 1) ========================================================================= *)
+(* the default arm of color_to_char: a character that is neither ' ' nor the character of any colour *)
+Definition default_ok (m : mapping) : bool :=
+  match m_default m with
+  | None => true
+  | Some ch => negb (existsb (Z.eqb ch) (charset m)) && negb (ch =? SPACE)
+  end.
+
+Lemma all_default_ok : forallb default_ok all_mappings = true.
+Proof. vm_compute. reflexivity. Qed.
+
+(* the default arm is '?' wherever there is one (BinaryColor, Gray2, Gray4 have none: total tables) *)
+Lemma default_chars : Forall (fun m => m_default m = None \/ m_default m = Some 63) all_mappings.
+Proof. repeat constructor; (left; reflexivity) || (right; reflexivity). Qed.
+
+Lemma lookup_In k l v : lookup k l = Some v -> In (k, v) l.
+Proof.
+  induction l as [|[a b] t IH]; cbn [lookup]; [discriminate|].
+  destruct (a =? k) eqn:Ea; [intros H; inversion H; subst; left; f_equal; lia|intros H; right; apply IH, H].
+Qed.
+
+(* whatever Debug prints for a colour is not ' ', and if it is a character of the set then the colour is THE colour of
+   that character: colours outside the set never print as a pattern character (they print as the default '?') *)
+Theorem debug_char_identifies_colour m v ch :
+  In m all_mappings -> color_to_char m v = Ok ch ->
+  ch <> SPACE /\ (In ch (charset m) -> In v (colset m) /\ char_to_color m ch = Ok v).
+Proof.
+  intros Hm E. unfold color_to_char in E. destruct (lookup v (m_col2c m)) as [c|] eqn:El.
+  - inversion E; subst c. pose proof (lookup_In _ _ _ El) as Hrow.
+    assert (In v (colset m)) as Hv by (unfold colset; apply in_map_iff; exists (v, ch); auto).
+    destruct (colset_roundtrip m v Hm Hv) as [ch' [E1 [E2 [E3 _]]]].
+    assert (ch' = ch) by (unfold color_to_char in E1; rewrite El in E1; inversion E1; reflexivity).
+    subst ch'. split; [assumption|]. intros _. split; assumption.
+  - pose proof all_default_ok as H. rewrite forallb_forall in H. specialize (H m Hm). unfold default_ok in H.
+    destruct (m_default m) as [c|]; [|discriminate]. inversion E; subst c.
+    apply andb_true_iff in H. destruct H as [H1 H2]. split; [lia|]. intros Hin. exfalso.
+    assert (existsb (Z.eqb ch) (charset m) = true) as Hex by (apply existsb_exists; exists ch; split; [assumption|apply Z.eqb_refl]).
+    rewrite Hex in H1. discriminate.
+Qed.
+
+(* distinct colours of the set print distinct characters *)
+Corollary debug_chars_distinct m v1 v2 ch :
+  In m all_mappings -> In v1 (colset m) -> color_to_char m v1 = Ok ch -> color_to_char m v2 = Ok ch -> v1 = v2.
+Proof.
+  intros Hm H1 E1 E2. destruct (colset_roundtrip m v1 Hm H1) as [c [F1 [F2 [_ F4]]]]. rewrite E1 in F1. inversion F1; subst c.
+  destruct (debug_char_identifies_colour m v2 ch Hm E2) as [_ H]. destruct (H F4) as [_ G]. congruence.
+Qed.
+
+Lemma get_pixel_total d p : exists c, get_pixel d p = Ok c.
+Proof. eexists. apply get_pixel_gp. Qed.
+
+(* the eight named colours K R G B Y M C W of every RGB type, as raw values (channel maxima at the type's bit positions) *)
+Lemma rgb_colour_sets :
+  colset map_Rgb332 = [0; 224; 28; 3; 252; 227; 31; 255] /\
+  colset map_Rgb444 = [0; 3840; 240; 15; 4080; 3855; 255; 4095] /\
+  colset map_Rgb555 = [0; 31744; 992; 31; 32736; 31775; 1023; 32767] /\
+  colset map_Bgr555 = [0; 31; 992; 31744; 1023; 31775; 32736; 32767] /\
+  colset map_Rgb565 = [0; 63488; 2016; 31; 65504; 63519; 2047; 65535] /\
+  colset map_Bgr565 = [0; 31; 2016; 63488; 2047; 63519; 65504; 65535] /\
+  colset map_Rgb888 = [0; 16711680; 65280; 255; 16776960; 16711935; 65535; 16777215] /\
+  colset map_Bgr888 = [0; 255; 65280; 16711680; 65535; 16711935; 16776960; 16777215].
+Proof. repeat split; reflexivity. Qed.
